@@ -32,8 +32,8 @@ ASSUMPTIONS = [
 ]
 
 ZONES = ['UTC', 'Europe/Bucharest', 'America/New_York', 'Australia/Lord_Howe', 'Asia/Kathmandu', 'America/Sao_Paulo']
-T_MIN, T_MAX = 0, 4102444800  # 1970 .. 2100
-CODES = {'fields': 0, 'DATE': 1, 'BOY': 2, 'BOM': 3, 'BOW': 4, 'BOD': 5, 'HMSINTERVAL': 6, 'MDINTERVAL': 7}
+T_MIN, T_MAX = 0, 13601088000  # 1970 .. 2401 (century years 2100/2200/2300 are not leap, 2400 is)
+CODES = {'fields': 0, 'DATE': 1, 'BOY': 2, 'BOM': 3, 'BOW': 4, 'BOD': 5, 'HMSINTERVAL': 6, 'MDINTERVAL': 7, 'MILLISECOND': 8}
 
 
 def set_tz(zone):
@@ -41,7 +41,7 @@ def set_tz(zone):
     time.tzset()
 
 
-def offset_table(lo=-2840140800, hi=5364662400, step=3 * 3600):
+def offset_table(lo=-2840140800, hi=14900000000, step=3 * 3600):
     """(off0, [(first instant, offset)...]) of the current TZ, probed from time.localtime (what datetime uses)."""
     def off(t):
         return time.localtime(t).tm_gmtoff
@@ -80,7 +80,7 @@ def gen_cases(rng, n, tbl):
                                                    rng.randint(-90000, 90000)])
         if r < 0.55:
             # month / year ends, leap days
-            y = rng.randint(1971, 2099)
+            y = rng.choice([rng.randint(1971, 2099), rng.randint(1971, 2399), rng.choice([2000, 2100, 2200, 2300, 2400])])
             m = rng.choice([1, 2, 2, 3, 12, rng.randint(1, 12)])
             d = rng.choice([1, 28, 29, 30, 31])
             import calendar
@@ -88,6 +88,8 @@ def gen_cases(rng, n, tbl):
             import datetime
             base = int(datetime.datetime(y, m, d, tzinfo=datetime.timezone.utc).timestamp())
             return base + rng.choice([0, 1, 43200, 86399, rng.randint(0, 86399)]) + rng.choice([0, -86400, 86400]) * rng.randint(0, 1)
+        if r < 0.85:
+            return rng.randint(T_MIN + 86400 * 400, 4102444800 - 86400 * 400)
         return rng.randint(T_MIN + 86400 * 400, T_MAX - 86400 * 400)
 
     def local_midnight_near(ts):
@@ -110,7 +112,9 @@ def gen_cases(rng, n, tbl):
             cases.append((fn, [ts] + a))
             pending.append((fn, [m + rng.choice([0, 60, 600, 1800])] + a))
             continue
-        if r < 0.15:
+        if r < 0.02:
+            cases.append(('MILLISECOND', [ts * 1000 + rng.choice([0, 1, 499, 500, 999, rng.randint(0, 999)])]))
+        elif r < 0.15:
             cases.append(('fields', [ts]))
         elif r < 0.27:
             if rng.random() < 0.8:
@@ -155,6 +159,9 @@ def gen_cases(rng, n, tbl):
     return cases
 
 
+NO_RTC = {}
+
+
 async def eval_impl(cases):
     """run the real functions; -> list of ('list', [...]) | ('ok', v) | ('bad', i, v) | ('err', text)"""
     from qtoggleserver.core import expressions
@@ -170,9 +177,28 @@ async def eval_impl(cases):
             e = parsed[text] = expressions.parse(None, text, ROLE_VALUE)
         return await e.eval(EvalContext({}, ts * 1000 + 123))
 
+    # a hub that starts without a real-time clock (wall clock before 2019) skips the date functions; once the clock is set
+    # they must work: one evaluation under an old wall clock first, in the same process as everything that follows
+    import time as _time
+    real_time = _time.time
+    _time.time = lambda: 1000.0
+    try:
+        try:
+            await ev('YEAR()', 1700000000)
+            NO_RTC['first'] = 'evaluated'
+        except Exception as e:  # noqa: BLE001
+            NO_RTC['first'] = type(e).__name__
+    finally:
+        _time.time = real_time
+
     out = []
     for fn, a in cases:
         try:
+            if fn == 'MILLISECOND':
+                e = parsed.get('MILLISECOND()') or parsed.setdefault('MILLISECOND()', expressions.parse(None, 'MILLISECOND()', ROLE_VALUE))
+                v = await e.eval(EvalContext({}, a[0]))
+                out.append(('ok', int(v)) if not isinstance(v, bool) and float(v).is_integer() else ('err', 'non-integer result %r' % (v,)))
+                continue
             if fn == 'fields':
                 vals = []
                 for name in ('YEAR', 'MONTH', 'DAY', 'DOW', 'LDOM', 'HOUR', 'MINUTE', 'SECOND', 'MINUTEDAY', 'SECONDDAY'):
@@ -257,7 +283,7 @@ def run_cases(ctx, res, per_zone, zones, rng):
             dist[fn] = dist.get(fn, 0) + 1
             dist['result:' + r[0]] = dist.get('result:' + r[0], 0) + 1
             # non-trivial: anything except an identity offset (n = 0) on UTC
-            if not (zone == 'UTC' and fn in ('BOY', 'BOM', 'BOW', 'BOD') and a[1] == 0):
+            if not (zone == 'UTC' and fn in ('BOY', 'BOM', 'BOW', 'BOD') and a[1] == 0) and fn != 'MILLISECOND':
                 distinct.add((zone, fn, tuple(a)))
         if len(res['samples']) < 12:
             for (fn, a), r in list(zip(cases, results))[:2]:
@@ -291,11 +317,12 @@ def run_cases(ctx, res, per_zone, zones, rng):
     for k, v in dist.items():
         res['distribution'][k] = res['distribution'].get(k, 0) + v
     res['extra']['impl_wall_s'] = round(t_impl, 2)
+    res['extra']['first_evaluation_under_a_wall_clock_before_2019'] = NO_RTC.get('first')
 
 
 def check(ctx, res):
     res['rule'] = (
-        'per time zone (%s): random instants 1970-2100 biased to DST transitions (+-2h), month/year ends and leap days; '
+        'per time zone (%s): one evaluation under a wall clock before 2019 first (no real-time clock yet), then random instants 1970-2100 (15 %% up to 2401, century Februaries included) biased to DST transitions (+-2h), month/year ends and leap days; '
         'offsets n in [-60,60], first weekdays 0..6, valid and invalid DATE/HMSINTERVAL/MDINTERVAL arguments. '
         'distinct = distinct (zone, function, arguments); non-trivial = not an n=0 call under UTC' % ', '.join(ZONES)
     )
